@@ -167,8 +167,7 @@ ATTR_ALIASES = {'candidates': {'candidates', 'subchoice'}, 'num_choices': {'num_
 
 
 def _attrs_read(fnode):
-  return {n.attr.lstrip('_') for n in ast.walk(fnode) if isinstance(n, ast.Attribute)} | {
-      (A.call_name(n) or '').split('.')[-1] for n in ast.walk(fnode) if isinstance(n, ast.Call)}
+  return {n.attr.lstrip('_') for n in ast.walk(fnode) if isinstance(n, ast.Attribute)}
 
 
 def rule_b(ctx):
